@@ -61,10 +61,6 @@ func (g *GroupMod) AddBucket(bkt Bucket) {
 func (g *GroupMod) Len() (n uint16) {
 	n = g.Header.Len()
 	n += 8
-	if g.Command == OFPGC_DELETE {
-		return
-	}
-
 	for _, b := range g.Buckets {
 		n += b.Len()
 	}
